@@ -350,19 +350,21 @@ def plan(prop, tier):
         P = [(f, n) for f in ["small-rand", "small-int", "degenerate", "illcond", "thin", "planted-opt", "tiny"]]
         P.append(("knife", 450 if q else 12000))
         P.append(("knife-x", 40 if q else 1500))
+        P.append(("boxed", 120 if q else 5000))
         P.append(("medium", 8 if q else 300))
         P.append(("big", 24 if q else 800))
         return P
     if prop == "C02":
         n = 70 if q else 3000
         return [("planted-inf", 3 * n), ("thin", 2 * n), ("small-rand", n), ("small-int", n), ("degenerate", n), ("tiny", n), ("illcond", n),
-                ("knife", 4 * n), ("knife-far", n), ("knife-x", n), ("planted-inf-x", n // 2)]
+                ("knife", 4 * n), ("knife-far", n), ("knife-x", n), ("planted-inf-x", n // 2), ("boxed", 2 * n)]
     if prop == "C03":
         n = 150 if q else 4000
         P = [(f, n) for f in ["small-rand", "small-int", "degenerate", "illcond", "thin", "planted-opt", "planted-inf"]]
         P.append(("planted-unb", 60 if q else 1500))
         P.append(("knife", 300 if q else 10000))
         P.append(("big", 40 if q else 1500))
+        P.append(("boxed", 200 if q else 8000))
         P.append(("tiny", 1000 if q else 30000))
         return P
     raise ValueError(prop)
